@@ -113,6 +113,7 @@ def mk_cfg(g, case, n):
         cfg["opts"]["n_final_samples"] = n + 5
     cfg["ckpt_every"] = case["every"]
     cfg["precond"] = {"preconditioning": "default", "kwargs": {}}
+    cfg["path_as_pathlib"] = bool(case["k"] % 3 == 1)
     return cfg
 
 
@@ -125,6 +126,10 @@ def one_run(cfg, path, mode, fault=None, observer=None, fault_exc=InjectedFault)
     if observer:
         probe.observers.append(observer)
     _, a, probe = recorded.build(cfg, probe=probe)
+    if cfg.get("path_as_pathlib"):
+        import pathlib
+
+        path = pathlib.Path(path)  # a path object instead of a string is a documented way to name the file
     if mode == "path":
         kw = recorded.sample_kwargs(cfg, ckpt_path=path)
         res = smcrun.run(a, cfg["n"], cfg["sampler"], kw, max_calls=5000)
